@@ -162,6 +162,23 @@ func main() {
 				}
 				res = project(kv, keys)
 				go kv.Start()
+				if len(os.Args) > 3 && os.Args[3] == "followup" {
+					// the recovered store must keep working: acknowledge two more mutations, stop cleanly, open again
+					r1 := apply(kv, Mut{T: "put", K: keys[0], V: "after-recovery"})
+					r2 := apply(kv, Mut{T: "app", K: keys[len(keys)-1], C: "after-recovery"})
+					kv.Stop()
+					kv2, err2 := aof.New(aof.Config{Logger: zap.NewNop(), HasnFn: chord.Hash, DataDir: dir, FlushInterval: time.Hour})
+					if err2 != nil {
+						res["second"] = map[string]any{"err": err2.Error()}
+						return
+					}
+					sec := project(kv2, keys)
+					sec["acks"] = []string{r1, r2}
+					res["second"] = sec
+					go kv2.Start()
+					kv2.Stop()
+					return
+				}
 				kv.Stop()
 			})
 			if p != "" {
